@@ -787,3 +787,135 @@ func zzC06eThreeInFlight() {
 	vf.Assert("no-waiter-left", len(c.replyCh) == 0 && vf.Unlocked(&c.mu))
 	vf.Reach("end")
 }
+
+// C06.f: a burst of responses while the reply router is stalled (it waits for the table mutex):
+// however many requests are in flight and in whatever order the broker answers, none of the
+// responses is lost on the way from the read loop to the router.
+func zzC06fResponseBurst() {
+	tr := ZZNewFakeTransport()
+	tr.In = make(chan message.Message, 64)
+	c := ZZNewClientConn(tr, nil)
+	go c.readReliableLoop()
+	ctx := context.Background()
+	const n = 14
+	var acks [n]*message.UpstreamMetadataAck
+	var errs [n]error
+	var done [n]bool
+	for i := 0; i < n; i++ {
+		i := i
+		go func() {
+			acks[i], errs[i] = c.SendUpstreamMetadata(ctx, &message.UpstreamMetadata{Metadata: &message.BaseTime{Name: "n"}})
+			done[i] = true
+		}()
+	}
+	vf.Settle()
+	var ids []uint32
+	for _, m := range tr.Msgs() {
+		if q, ok := m.(*message.UpstreamMetadata); ok {
+			ids = append(ids, uint32(q.RequestID))
+		}
+	}
+	vf.Assert("all-requests-on-the-wire", len(ids) == n)
+	if len(ids) != n {
+		return
+	}
+	// the router is stalled: somebody holds the reply-table mutex
+	c.mu.Lock()
+	newestFirst := vf.Choose("answer.order", 2) == 1
+	for k := 0; k < n; k++ {
+		j := k
+		if newestFirst {
+			j = n - 1 - k
+		}
+		tr.In <- &message.UpstreamMetadataAck{RequestID: message.RequestID(ids[j]), ResultString: string(rune('a' + j))}
+	}
+	vf.Settle()
+	c.mu.Unlock()
+	vf.Settle()
+	got := 0
+	for i := 0; i < n; i++ {
+		if done[i] {
+			got++
+		}
+	}
+	vf.Assert("every-caller-returns", got == n)
+	for i := 0; i < n; i++ {
+		if done[i] {
+			vf.Assert("each-caller-gets-the-response-with-its-own-id", errs[i] == nil && acks[i] != nil)
+		}
+	}
+	// the response object each caller holds bears an id that was issued, and no two callers share one
+	seen := map[uint32]bool{}
+	for i := 0; i < n; i++ {
+		if acks[i] != nil {
+			id := uint32(acks[i].RequestID)
+			vf.Assert("no-response-delivered-twice", !seen[id])
+			seen[id] = true
+		}
+	}
+	vf.Assert("no-waiter-left", len(c.replyCh) == 0)
+	vf.Reach("end")
+}
+
+// C12.d: hostile frame sequences on the read path never hang it: a response frame repeated back to
+// back (before the waiting caller has run), responses for unknown ids and acks / chunks / metadata
+// for unknown aliases in a burst leave the dispatchers running, and an unrelated later request still
+// gets its response.
+func zzC12dHostileSequences() {
+	tr := ZZNewFakeTransport()
+	tr.In = make(chan message.Message, 64)
+	c := ZZNewClientConn(tr, nil)
+	go c.readReliableLoop()
+	ctx := context.Background()
+	var pong *message.Pong
+	var perr error
+	done := false
+	go func() { pong, perr = c.sendPing(); done = true }()
+	vf.Settle()
+	var pingID message.RequestID
+	for _, m := range tr.Msgs() {
+		if p, ok := m.(*message.Ping); ok {
+			pingID = p.RequestID
+		}
+	}
+	copies := 2 + vf.Choose("extra.copies", 3)
+	// the frames pile up in front of the reply router (stalled on the table mutex for a moment), so
+	// that it meets them back to back, before any waiting caller has had a chance to run
+	c.mu.Lock()
+	switch vf.Choose("hostile.sequence", 3) {
+	case 0: // the same response frame several times in a row
+		for i := 0; i < copies; i++ {
+			tr.In <- &message.Pong{RequestID: pingID}
+		}
+	case 1: // a burst of responses nobody waits for, then the real one
+		for i := 0; i < 12; i++ {
+			tr.In <- &message.UpstreamCloseResponse{RequestID: message.RequestID(uint32(pingID) + 2*uint32(i+1))}
+		}
+		tr.In <- &message.Pong{RequestID: pingID}
+	case 2: // a burst of stream traffic for aliases nobody subscribed, then the real one
+		for i := 0; i < 12; i++ {
+			tr.In <- &message.UpstreamChunkAck{StreamIDAlias: uint32(100 + i)}
+			tr.In <- &message.DownstreamChunk{StreamIDAlias: uint32(100 + i), UpstreamOrAlias: message.UpstreamAlias(1), StreamChunk: &message.StreamChunk{}}
+			tr.In <- &message.DownstreamMetadata{StreamIDAlias: uint32(100 + i), SourceNodeID: "x", Metadata: &message.BaseTime{}}
+			tr.In <- &message.DownstreamChunkAckComplete{StreamIDAlias: uint32(100 + i)}
+		}
+		tr.In <- &message.Pong{RequestID: pingID}
+	}
+	vf.Settle()
+	c.mu.Unlock()
+	vf.Settle()
+	vf.Assert("pending-caller-answered", done && perr == nil && pong != nil && pong.RequestID == pingID)
+	// the read path is still alive: an unrelated request gets its response
+	tr.OnWrite = func(m message.Message) error {
+		if q, ok := m.(*message.UpstreamMetadata); ok {
+			tr.In <- &message.UpstreamMetadataAck{RequestID: q.RequestID}
+		}
+		return nil
+	}
+	var ack *message.UpstreamMetadataAck
+	var aerr error
+	blocked := vf.Blocked(func() { ack, aerr = c.SendUpstreamMetadata(ctx, &message.UpstreamMetadata{Metadata: &message.BaseTime{Name: "n"}}) })
+	vf.Assert("read-path-not-hung", !blocked && aerr == nil && ack != nil)
+	vf.Assert("locks-free", vf.Unlocked(&c.mu) && vf.RUnlocked(c.upstreams.mu) && vf.RUnlocked(c.downstreams.mu))
+	vf.Reach("end")
+}
